@@ -1411,6 +1411,10 @@ def do_lift(code, d, rec):
         # the arm is an expression with a block (`=> match res { .. }`, `=> if c { .. }`): the whole expression is lifted
         body = '{\n' + code[pos + len(anchor):b].strip() + ' ' + body + '\n}'
     if name == 'lift-loop':
+        # E30 inside the lifted body: a guard `continue` of a NESTED `for` loop belongs to that loop and is rewritten to if / else there
+        body, _n30 = rewrite_guard_continues(body)
+        if _n30:
+            rec['transformations'].append({'rule': 'E30', 'what': '%d guard `continue` of nested for-loops rewritten to if / else' % _n30})
         bm = mask(body)
         if re.search(r'\b(for|while|loop)\b', bm[1:]) and re.search(r'\bcontinue\b', bm):
             # continue inside a nested loop would change meaning
